@@ -202,6 +202,9 @@ PROPS = {
         "units": ["U8h"],
         "kani": ["U8"],
         "level": "proof",
+        "bounded": [("limiter", "durations that are not a whole number of seconds are outside the domain of the Kani step proof (f32 division by a fractional duration does not "
+                     "terminate in CBMC): the real RateLimiter under the paused clock, limits {1, 2, 3, 7, 100} x durations {100, 500, 999, 1000, 1500, 2500, 10 000, 3 600 000} ms x 1500 "
+                     "random attempts of one key: at most `limit` admissions between two window starts, at most 2 * limit in any interval of one duration, an idle key is readmitted")],
         "witness": [(r"big_limit", "limiter_big"), (r".", "limiter")],
         "sweep": ["limiter"],
         "explanation": "RateLimiter::enqueue is extracted verbatim (only #[instrument] dropped) into a generated Kani crate whose environment models tokio's "
